@@ -189,4 +189,26 @@ pub fn worker(ctx: &Ctx, res: &mut ShardResult) {
     if res.samples.len() < 1 { res.sample(json!({"determinism_line": outs[0].first()})); }
 }
 
-pub fn replay(case: &Value) -> Vec<String> { vec![format!("rerun ./vf check C15 quick (case {})", case)] }
+/// Re-run one recorded equivalence case (grammar + text): merged and unmerged parsers built afresh from the current generator.
+pub fn replay(case: &Value) -> Vec<String> {
+    let case = if case.get("kind").and_then(|k| k.as_str()) == Some("crash") { &case["case"] } else { case };
+    if case["part"].as_str() != Some("equivalence") { return vec![format!("determinism cases compare three generator processes: rerun ./vf check C15 quick ({})", case)]; }
+    let spec = if let Some(zn) = case["zoo"].as_str() {
+        let Some(z) = crate::zoo::by_name(zn) else { return vec![format!("unknown zoo language {}", zn)] };
+        z.spec.clone()
+    } else {
+        let id = case["grammar_id"].as_str().unwrap_or("");
+        if let Some((name, g)) = g5().into_iter().find(|(n, _)| n == id) { LangSpec { name, grammar_json: g.to_json(), scanner_c: None } }
+        else if let Some(f) = family_list("thorough").into_iter().find(|f| f.id == id) { LangSpec { name: f.g.name.clone(), grammar_json: f.g.to_json(), scanner_c: None } }
+        else { return vec![format!("unknown grammar {}", id)] }
+    };
+    let (Ok(merged), Ok(unmerged)) = (lang::build(&spec, OptLevel::default()), lang::build(&spec, OptLevel::empty())) else { return vec!["the grammar does not build with one of the two optimisation levels".into()] };
+    let text = crate::util::bytes_from_json(&case["text"]);
+    let mut pa = Parser::new(); pa.set_language(&merged.language).unwrap();
+    let mut pb = Parser::new(); pb.set_language(&unmerged.language).unwrap();
+    println!("merged:   {}", pa.parse(&text, None).unwrap().root_node().to_sexp());
+    println!("unmerged: {}", pb.parse(&text, None).unwrap().root_node().to_sexp());
+    let mut res = ShardResult::new();
+    compare_parsers(&spec.name, &merged.language, &unmerged.language, &text, &mut res, case.clone());
+    res.violations.iter().map(|v| format!("{}: {}", v.fingerprint, v.what)).collect()
+}
